@@ -87,9 +87,8 @@ RATES_TEXT = """RATES
  -end
  r_const
  -start
- 10 if (m <= 0) then goto 30
- 20 rate = parm(1)
- 30 save rate * time
+ 10 rate = parm(1) * m / (m + 0.01 * m0)
+ 20 save rate * time
  -end
  r_grow
  -start
@@ -517,7 +516,12 @@ def kin(draw):
     if rate == "r_first":
         parm = draw(cg.logu(1e-8, 1e-3, 2))
     elif rate == "r_const":
-        parm = draw(cg.logu(1e-10, 1e-5, 2))
+        # (constant rate that fades out smoothly below 1 % of m0: with a rate that is discontinuous at m = 0 the
+        #  Runge-Kutta step control of the engine does not return in reasonable time once the reactant is used up -
+        #  seen: > 10 min with an exchanger tied to the reactant)
+        #  Also never more than 30 % of the reactant per stage: when a kinetic reactant with a tied exchanger is used up
+        #  while a REACTION is applied, rk_kinetics does not return (seen on the unchanged tree: > 10 min).
+        parm = min(draw(cg.logu(1e-10, 1e-5, 2)), 0.3 * m0 / top)
     else:
         parm = min(draw(cg.logu(1e-10, 1e-6, 2)), 1e-4 / top)
     d = {"rate": rate, "formula": draw(st.sampled_from(["NaCl", "NaCl", "NaHCO3"])), "m0": m0, "parm": float("%.3g" % parm),
@@ -527,7 +531,7 @@ def kin(draw):
 
 def render_kin(d, n):
     L = ["KINETICS %d" % n, " %s" % d["rate"], "  -formula %s 1" % d["formula"], "  -m0 %s" % fmt(d["m0"]),
-         "  -m %s" % fmt(d["m0"]), "  -parms %s" % fmt(d["parm"]), "  -tol 1e-10",
+         "  -m %s" % fmt(d["m0"]), "  -parms %s" % fmt(d["parm"]), "  -tol 1e-9",
          " -steps %s in %d steps" % (fmt(d["total"]), d["n"]), " -cvode false"]
     return "\n".join(L)
 
